@@ -210,7 +210,9 @@ def validate(ctx, events, label, cfg=None, stats=None, max_rounds=10):
             break
         case = cases[ci]
         seen[key] = seen.get(key, 0) + 1
-        if seen[key] == 1:
+        reported = ctx.__dict__.setdefault("_c12_reported", set())     # one violation per class and check run
+        if key not in reported:
+            reported.add(key)
             # replay = table + the case's reset / index events + the offending event
             rp = ctx.path(f"{label}.rejected.{key.split(':')[0]}{'.strict' if cfg == CFG_STRICT else ''}.ndjson")
             vlib.write_ndjson(rp, header + [e for e in case if e["ev"] in ("reset", "index")] + ([ev] if ev["ev"] not in ("reset", "index") else []))
